@@ -13,7 +13,7 @@ from vlib.runner import Outcome
 
 # ------------------------------------------------------------------ cost model (ms at m=1, l=32; machine idle)
 OP_COST = {'add': 1, 'neg': 1, 'cmp': 3, 'mul': 1.5, 'mulint': 1, 'mulfloat': 1.5, 'div': 28, 'divp': 1.5,
-           'sincos': 60, 'trunc': 1.5, 'pow': 3, 'comp': 8, 'comp_div': 35, 'comp_sin': 70, 'comp_cmp': 8,
+           'sincos': 100, 'trunc': 1.5, 'pow': 3, 'comp': 8, 'comp_div': 40, 'comp_sin': 220, 'comp_cmp': 10,
            'list_lin': 3, 'list_mul': 4, 'list_sel': 6, 'matprod': 5, 'seclist': 8, 'order': 10, 'scalar_sel': 6,
            'const': 1, 'chain': 8}
 
@@ -24,8 +24,8 @@ def cfg_mult(m, prss):
     if m <= 3:
         return 4.0 if prss else 7.0
     if m <= 5:
-        return 9.0 if prss else 16.0
-    return 20.0 if prss else 45.0
+        return 9.0 if prss else 22.0
+    return 22.0 if prss else 55.0
 
 
 # ------------------------------------------------------------------ context
@@ -600,6 +600,14 @@ def b_list_mul(c):
     return ['prod', lst(c, k, min(c.B, 1 << bits), pool=ANY_FLAGS)]
 
 
+def b_prod(c):
+    """mpc.prod over lists with independent flags: the pairwise tree keeps a flag per partial product."""
+    d = c.draw
+    k = d(st.integers(2, 5))
+    bits = c.f + max(0, (c.l - c.f - 2) // k - 1)
+    return ['prod', lst(c, k, min(c.B, 1 << bits), pool=['rand', 'rand', 'rand', 'mixI0', 'allI'], plain=True)]
+
+
 def b_matprod(c):
     d = c.draw
     n1, n, n2 = d(st.integers(1, 2)), d(st.integers(1, 3)), d(st.integers(1, 2))
@@ -763,7 +771,7 @@ BUILDERS = {
     'list_lin': (b_list_lin, 'list_lin'), 'list_mul': (b_list_mul, 'list_mul'), 'matprod': (b_matprod, 'matprod'),
     'seclist': (b_seclist, 'seclist'), 'order': (b_order, 'order'), 'scalar_sel': (b_scalar_sel, 'scalar_sel'),
     'chain': (b_chain, 'chain'), 'const': (b_const, 'const'), 'lshift': (b_lshift, 'add'),
-    'noneflag': (b_noneflag, 'comp_div'),
+    'noneflag': (b_noneflag, 'comp_div'), 'prod': (b_prod, 'list_mul'),
     'sincos_small': (lambda c: b_sincos(c, False), 'sincos'),
 }
 
@@ -816,7 +824,7 @@ def case(draw, tier, weights, whole_bias=0.25, m1_share=0.45, div_share=0.5, bud
         cost = OP_COST[BUILDERS[k][1]] * mult
         if recs and spent + cost > B:
             break
-        if not recs and cost > 6 * B:
+        if not recs and cost > 3 * B:
             k = 'mul' if 'mul' in weights else names[0]
             cost = OP_COST[BUILDERS[k][1]] * mult
         rec = fit(BUILDERS[k][0](c), l, f)
@@ -887,7 +895,7 @@ def run_case(case, prop, skip_known_classes=False):
         for _, s in rv.reg:
             for r in fxp.flatten(s):
                 kn |= r.kn
-        if skip_known_classes and kn:
+        if skip_known_classes and kn & {'F6', 'F7'}:
             labels.append('skipped-record-in-C02-known-class')
             nskip += 1
             continue
@@ -913,6 +921,9 @@ def run_case(case, prop, skip_known_classes=False):
     if res.inconclusive:
         return Outcome(True, inconclusive=True, nontrivial=False, labels=labels)
     brief = _brief(case)
+    if any('CaseTimeout' in e for _, e in res.errors):
+        from vlib.runner import CaseTimeout
+        raise CaseTimeout()  # the runner's watchdog fired inside a party coroutine: let the runner handle it
     if not res.all_done:
         return Outcome(False, f'run did not complete: {res.describe()}\n{res.errors[:2]}\ncase={brief}', labels=labels)
     for i, v in enumerate(res.values):
